@@ -171,14 +171,19 @@ class IH5MFRecord(IH5Record):
             #     raise ValueError(f"{ub._filename}: Manifest file has wrong UUID!")
         elif ub.hdf5_hashsum is None and len(ret._files) > 1:
             # latest container is an uncommitted patch (it gets its manifest on commit)
-            # -> load manifest of its predecessor (if it is still available and intact),
-            # just like if the patch was created in this session, so that its manifest
-            # extensions are inherited when the patch is committed
+            # -> check and load the manifest linked by its predecessor, the latest
+            # committed container, just like if the patch was created in this session
+            # (its manifest extensions are inherited when the patch is committed)
             prev_ubext = IH5UBExtManifest.get(ret._ublock(-2))
             prev_mf = cls._manifest_filepath(ret._files[-2].filename)
-            if prev_ubext is not None and prev_mf.is_file():
-                if prev_ubext.manifest_hashsum == hashsum_file(prev_mf):
-                    ret._manifest = IH5Manifest.parse_file(prev_mf)
+            if prev_ubext is not None:
+                if not prev_mf.is_file():
+                    msg = f"Manifest file {prev_mf} does not exist, cannot open!"
+                    raise ValueError(f"{ret._files[-2].filename}: {msg}")
+                if prev_ubext.manifest_hashsum != hashsum_file(prev_mf):
+                    msg = "Manifest has been modified, unexpected hashsum!"
+                    raise ValueError(f"{ret._files[-2].filename}: {msg}")
+                ret._manifest = IH5Manifest.parse_file(prev_mf)
         # all looks good
         return ret
 
